@@ -238,6 +238,10 @@ def unstrip(h: dict) -> dict:
 
 def replay_history(ctx: Ctx, rp: dict, which: set, extra=None) -> dict:
     case = rp.get("case") or rp["first_diverging_case"]["case"]
+    if "history" not in case and "ops" not in case:
+        # a case of one of the cut-point enumerations (Redis / RabbitMQ / in-memory probes): they are deterministic and re-run as a
+        # whole by the check itself
+        return {"fails": None, "note": f"case kind {sorted(case)}: re-run `./check {ctx.pid} --tier quick`; the enumeration that produced it is deterministic"}
     h = unstrip(case["history"] if "history" in case else case)
     rng = ctx.rng("replay")
     out = {}
@@ -317,3 +321,64 @@ def due_overtaken(hist: dict, r: dict) -> list:
                 promo.pop(j, None)
         prev_places = places
     return bad
+
+
+
+def consume_cancel_cuts(ctx: Ctx, res: Result) -> None:
+    """In-memory consumer: consume() cancelled k loop iterations after it started (every k of the window in which it picks a
+    message and hands it out), then finish() of that consumer: afterwards the processing set is empty and every message is in
+    exactly one place (C01 / C03: a cancellation exactly at the last await of consume() must not orphan the message)."""
+    import asyncio
+    from repid import InMemoryMessageBroker
+    from ..clock import CLOCK
+    from ..pyparams import mk_params
+    from ..vloop import run_virtual
+    from ..world import key
+    problems = []
+
+    async def main(loop):
+        loop.set_exception_handler(lambda l, c: None)
+        for scenario in ("plain", "due_delayed_first", "expired_first"):
+            for k in range(0, ctx.scale(14, 30)):
+                mb = InMemoryMessageBroker()
+                await mb.queue_declare("q1")
+                now = CLOCK.now_us()
+                specs = {1: {}, 2: {}}
+                if scenario == "due_delayed_first":
+                    specs = {1: {"nxt": now - 1000}, 2: {}}
+                elif scenario == "expired_first":
+                    specs = {1: {"ts": now - 5_000_000, "ttl": 1000}, 2: {}}
+                for i, sp in specs.items():
+                    await mb.enqueue(key(f"m{i}", "t1", "q1", 5), f"p{i}", mk_params(ts=sp.get("ts", now), ttl=sp.get("ttl"), nxt=sp.get("nxt")))
+                cons = mb.get_consumer("q1", None, 5)
+                await cons.start()
+                t = asyncio.ensure_future(cons.consume())
+                for _ in range(k):
+                    await asyncio.sleep(0)
+                t.cancel()
+                await asyncio.gather(t, return_exceptions=True)
+                await cons.finish()
+                for _ in range(5):
+                    await asyncio.sleep(0)
+                q = mb.queues["q1"]
+                where: dict = {}
+                for m in list(q.simple._queue):
+                    where.setdefault(m.key.id_, []).append("waiting")
+                for ms in q.delayed.values():
+                    for m in ms:
+                        where.setdefault(m.key.id_, []).append("delayed")
+                for m in q.dead:
+                    where.setdefault(m.key.id_, []).append("dead")
+                for m in q.processing:
+                    where.setdefault(m.key.id_, []).append("processing")
+                res.count("mem_consume_cancel_cut_runs")
+                res.add_case(f"mem_consume_cancel:{scenario}:{k}:{sorted(where.items())}", k > 0)
+                bad = {i: where.get(f"m{i}", []) for i in specs if len(where.get(f"m{i}", [])) != 1 or where[f"m{i}"] == ["processing"]}
+                if bad:
+                    problems.append((scenario, k, bad))
+    run_virtual(main)
+    if problems:
+        scenario, k, bad = problems[0]
+        res.failures.append(Failure("mem_consume_cancelled_then_finish_leaves_message", f"scenario {scenario}: consume() cancelled {k} loop iterations after "
+                                    f"it started, then finish(): {bad} (every message must be in exactly one place, none left in the processing set); "
+                                    f"{len(problems)} of the cut points fail", {"mem_consume_cancel_cut": {"scenario": scenario, "k": k}}, None))
